@@ -64,7 +64,8 @@ def explore(k, c, shape, ratio=2.0, step=2, order=2, num_terms=2, max_paths=3000
             w = L.richardson.rule(k)
             return dict(val=val, err=info.error_estimate, fstep=info.final_step, index=info.index,
                         cand_d=d1, cand_e=e1, cand_s=s1, pen=pen, w1=float(np.sum(np.abs(w))),
-                        unchanged=all(a is b for a, b in zip(cm.flat_list(d_in), cm.flat_list(der))))
+                        unchanged=all(a is b for a, b in zip(cm.flat_list(d_in), cm.flat_list(der))) and
+                        all(a is b for a, b in zip(cm.flat_list(s_in), cm.flat_list(steps))))
     explorer = sn.Explorer(harness, assumptions=pos, max_paths=max_paths, timeout_ms=timeout_ms)
     paths = list(explorer.paths())
     return der, steps, paths, explorer
